@@ -257,6 +257,9 @@ ob(name='world.text.no_match_listing', kind='BL', props=['C15', 'C04', 'C08'], u
 ob(name='world.text.unfulfilled_report', kind='BL', props=['C04', 'C15'], unit='world_ii', harness='h_world.c', entry='w_unfulfilled_text',
    variants=[('N1.' + tag, dict(d, W_T=0)) for tag, d in [(t, {'N': 1, 'KMAX': 1, 'W_WHERE': w, 'W_NCOND': 0, 'VP_TOK_CAP': 24}) for t, w in shapes_where(1, (0,))]], unwind=26, timeout=900, min_reach=0,
    bound='one expectation, free bounds and count')
+ob(name='world.text.forbidden_call_report', kind='BL', props=['C07', 'C15'], unit='world_ii', harness='h_world.c', entry='w_forbidden_text',
+   variants=[('N1.A', {'N': 1, 'KMAX': 1, 'W_WHERE': 0, 'W_NCOND': 0, 'VP_TOK_CAP': 24}), ('N2.AA', {'N': 2, 'KMAX': 1, 'W_WHERE': 0, 'W_NCOND': 0, 'VP_TOK_CAP': 24})], unwind=26, timeout=900, min_reach=0,
+   bound='one or two active expectations, the candidate forbidding (upper bound 0), free argument value')
 ob(name='world.text.trace_record', kind='BL', props=['C17', 'C08'], unit='world_ii', harness='h_world.c', entry='w_trace_text',
    variants=[('N1.A.act%d' % a, {'N': 1, 'KMAX': 1, 'W_WHERE': 0, 'W_NCOND': 0, 'W_NACT': a, 'VP_TOK_CAP': 24}) for a in (0, 1, 2)], unwind=26, timeout=900, min_reach=0,
    bound='one expectation with 0..2 side effects (free throw behaviour) and a return handler')
